@@ -14,6 +14,7 @@ type scenRT struct {
 	env *Env
 	cfg *H1Cfg
 	g   *runGT
+	st  *h1State
 	run f1t.RunFn // combined scenarios
 }
 
@@ -87,11 +88,16 @@ func (rt *scenRT) scenarioFn(t *f1t.T) f1t.RunFn {
 		time.Sleep(time.Duration(p.SetupSleepNs))
 	}
 	if len(p.Components) > 0 {
-		var fns []f1t.ScenarioFn
-		for i := range p.Components {
-			fns = append(fns, rt.componentFn(i))
+		if rt.st.combined == nil {
+			// combined once, like a scenario value registered at program start and set up by every run
+			var fns []f1t.ScenarioFn
+			for i := range p.Components {
+				idx := i
+				fns = append(fns, func(t *f1t.T) f1t.RunFn { return rt.st.cur.componentFn(idx)(t) })
+			}
+			rt.st.combined = f1.CombineScenarios(fns...)
 		}
-		rt.run = f1.CombineScenarios(fns...)(t)
+		rt.run = rt.st.combined(t)
 	}
 	behave(t, p.SetupBehav)
 	if p.SetupRegLate {
